@@ -296,6 +296,50 @@ theorem senders_total (vk : Bytes → Bool) :
   · intro m ht
     unfold serverSend; rw [len_exact_r2c vk m ht]; simp
 
+/-- The key cache is transparent: for every history of frames (either direction, any protocol
+versions, any byte strings — valid, invalid and near-miss keys, hits, misses, evictions) decoded
+one after the other through one cache of any capacity (0 = disabled), every decode result equals
+the result of decoding that frame without a cache. -/
+theorem cache_transparent (vk : Bytes → Bool) (cap : Nat) (frames : List Frame) :
+    (runCached vk (KeyCache.new cap) frames).1 = frames.map (decodeFrame vk) :=
+  (runCached_spec vk frames (KeyCache.new cap) (KeyCache.new_inv vk cap)).1
+
+/-- The same from any cache state that satisfies the invariant "every stored key is valid, at
+most `cap` keys are stored"; the invariant is preserved. -/
+theorem cache_transparent_from (vk : Bytes → Bool) (c : KeyCache) (hinv : c.Inv vk)
+    (frames : List Frame) :
+    (runCached vk c frames).1 = frames.map (decodeFrame vk) ∧ (runCached vk c frames).2.Inv vk :=
+  ⟨(runCached_spec vk frames c hinv).1, (runCached_spec vk frames c hinv).2.1⟩
+
+/-- After every history the cache holds at most `cap` keys (none when disabled), all of them
+keys that `validKey` accepts, and its capacity is unchanged. -/
+theorem cache_bounded (vk : Bytes → Bool) (cap : Nat) (frames : List Frame) :
+    (runCached vk (KeyCache.new cap) frames).2.entries.length ≤ cap ∧
+    (∀ k ∈ (runCached vk (KeyCache.new cap) frames).2.entries, vk k = true) ∧
+    (runCached vk (KeyCache.new cap) frames).2.cap = cap := by
+  obtain ⟨_, ⟨hv, hb⟩, hc⟩ := runCached_spec vk frames (KeyCache.new cap) (KeyCache.new_inv vk cap)
+  have hc' : (runCached vk (KeyCache.new cap) frames).2.cap = cap := hc
+  exact ⟨by rw [hc'] at hb; exact hb, hv, hc'⟩
+
+/-- Lifting: in the cache state reached by any history, the decoders with a cache compute what
+the cache-less decoders compute — so `rt_*`, `version_reject`, `decode_total_*` and
+`sender_accept_*` hold verbatim for the decoders as the relay and the client call them. -/
+theorem cached_decode_eq (vk : Bytes → Bool) (cap : Nat) (history : List Frame) (v : Version)
+    (bs : Bytes) :
+    (decodeR2CC vk (runCached vk (KeyCache.new cap) history).2 v bs).1 = decodeR2C vk v bs ∧
+    (decodeC2RC vk (runCached vk (KeyCache.new cap) history).2 bs).1 = decodeC2R vk bs := by
+  have hinv := (runCached_spec vk history (KeyCache.new cap) (KeyCache.new_inv vk cap)).2.1
+  exact ⟨(decodeR2CC_spec vk _ v bs hinv).1, (decodeC2RC_spec vk _ bs hinv).1⟩
+
+/-- For instance: the round trip and totality through a used cache. -/
+theorem rt_r2c_cached (vk : Bytes → Bool) (cap : Nat) (history : List Frame) (v : Version)
+    (m : RelayToClientMsg) (ht : m.TypeInv vk) (hr : m.InRange) (hf : m.Fits) (ha : m.Allowed v) :
+    (decodeR2CC vk (runCached vk (KeyCache.new cap) history).2 v m.encode).1 = .ok m ∧
+    ∀ bs, (decodeR2CC vk (runCached vk (KeyCache.new cap) history).2 v bs).1 ≠ .error .panic := by
+  refine ⟨?_, ?_⟩
+  · rw [(cached_decode_eq vk cap history v m.encode).1]; exact rt_r2c vk v m ht hr hf ha
+  · intro bs; rw [(cached_decode_eq vk cap history v bs).1]; exact decode_total_r2c vk v bs
+
 -- Non-vacuity: each constructor has values satisfying every hypothesis used above, including a
 -- datagram exactly at the sender's limit; `Allowed` fails for the two version-bound frames.
 section NonVacuity
@@ -328,6 +372,16 @@ example : (ClientToRelayMsg.datagrams key0 ⟨none, some 1, [9]⟩).TypeInv vkAl
   refine ⟨⟨⟨rfl, rfl⟩, by intro s hs; cases hs; omega⟩, by decide⟩
 example : serverSend (.health []) = some .ok ∧ serverSend (.datagrams key0 ⟨none, none, []⟩) = some .emptyPacket := by
   decide
+-- The key cache: hits promote, misses of valid keys insert, a full cache evicts its least
+-- recently used key, invalid keys are never stored.
+def kA : Bytes := List.replicate 32 1
+def kB : Bytes := List.replicate 32 2
+def kC : Bytes := List.replicate 32 3
+def batchFrom (k : Bytes) : Frame := .c2r (5 :: k ++ [0, 0, 1, 9])
+example : (runCached vkAll (KeyCache.new 2)
+    [batchFrom kA, batchFrom kB, batchFrom kA, batchFrom kC]).2.entries = [kC, kA] := by decide
+example : (runCached (fun k => k != kB) (KeyCache.new 2)
+    [batchFrom kA, batchFrom kB, batchFrom kC]).2.entries = [kC, kA] := by decide
 end NonVacuity
 
 end IrohModel.C10
